@@ -162,6 +162,15 @@ func C12(r *explore.Run) {
 		for sig, d := range viol {
 			c.Violation(sig, s, d)
 		}
+		// the result must not depend on what was split before: repeat after calls that end in unusual lexer states
+		before := splitObs(s)
+		for _, poison := range splitPoisons {
+			explore.Try(func() { memefish.SplitRawStatements("p.sql", poison) })
+			if after := splitObs(s); after != before {
+				c.Violation("C12/depends-on-previous-call", fmt.Sprintf("%q after %q", s, poison), fmt.Sprintf("SplitRawStatements(%q) gives %s after splitting %q, but %s before", s, after, poison, before))
+				break
+			}
+		}
 		c.OutcomeStr(obs)
 		if nt {
 			c.Nontrivial(explore.Hash(obs + s))
@@ -173,6 +182,24 @@ func C12(r *explore.Run) {
 	r.Explore(explore.Options{Space: "S2/split-lexemes", MaxDev: -1,
 		Bound: fmt.Sprintf("all sequences of <=%d of %d lexemes (%d)", n+1, len(splitLexemes), spaces.Count(len(splitLexemes), n+1))},
 		func(c *explore.Ctx) { body(c, spaces.Str(c, splitLexemes, n+1)) })
+}
+
+// splitPoisons end in unusual lexer states (error right after "ident .", inside a string, inside a comment).
+var splitPoisons = []string{"SELECT t.'abc", "a . ", "'", "x /*"}
+
+func splitObs(s string) string {
+	var b strings.Builder
+	pv, _ := explore.Try(func() {
+		ps, err := memefish.SplitRawStatements("f.sql", s)
+		for _, p := range ps {
+			fmt.Fprintf(&b, "[%d,%d)%q;", p.Pos, p.End, p.Statement)
+		}
+		fmt.Fprint(&b, err)
+	})
+	if pv != nil {
+		return "panic"
+	}
+	return b.String()
 }
 
 func init() {
